@@ -390,7 +390,7 @@ def main(run):
         run.sample({"case": c.name, "note": c.note, "input": str(c.inp)[:200],
                     "mapping": {str(a): str(b)[:100] for a, b in c.mapping.items()}, "output": str(c.out)[:200]})
 
-    failing = C03_coq.emit_and_check(run, "C21", cases, timeout=1200 if quick else 2700, extra_header=C03_coq.extra_header(True), shards=16)
+    failing = C03_coq.emit_and_check(run, "C21", cases, timeout=600 if quick else 2700, max_rounds=5, extra_header=C03_coq.extra_header(True), shards=16)
 
     # --- shape-changing mappings must be rejected; unmapped expressions are returned unchanged
     gen = C03_gen.Gen(random.Random(2), "triangle")
